@@ -485,9 +485,43 @@ func (w *World) apAddrBase(base ssa.Value, depth int) string {
 
 func (w *World) allocName(a *ssa.Alloc) string {
 	if a.Comment != "" {
+		// several cells of one function can share a comment (two composite literals are both
+		// "complit"): the second, third … in program order get an ordinal
+		if n := w.allocOrdinal(a); n > 1 {
+			return fmt.Sprintf("local:%s#%d", a.Comment, n)
+		}
 		return "local:" + a.Comment
 	}
 	return "local@" + a.Name()
+}
+
+func (w *World) allocOrdinal(a *ssa.Alloc) int {
+	if w.allocOrd == nil {
+		w.allocOrd = map[*ssa.Alloc]int{}
+	}
+	if n, ok := w.allocOrd[a]; ok {
+		return n
+	}
+	fn := a.Parent()
+	if fn == nil {
+		return 1
+	}
+	seen := map[string]int{}
+	for _, b := range fn.Blocks {
+		for _, in := range b.Instrs {
+			if al, ok := in.(*ssa.Alloc); ok && al.Comment != "" {
+				seen[al.Comment]++
+				w.allocOrd[al] = seen[al.Comment]
+			}
+		}
+	}
+	for _, al := range fn.Locals {
+		if _, ok := w.allocOrd[al]; !ok && al.Comment != "" {
+			seen[al.Comment]++
+			w.allocOrd[al] = seen[al.Comment]
+		}
+	}
+	return w.allocOrd[a]
 }
 
 func globalName(g *ssa.Global) string {
